@@ -1003,19 +1003,55 @@ def roots_def(src, tree):
     v = comp.ex(lc.elt.args[1], env)
     if v.ty != "S":
         T.fail(F_MATH, fn, "roots: angle is not a scalar")
-    return ("(* roots(c, pow): with (r, t) = cmath.polar(c), the k-th returned root is cmath.rect(1, m_root_angle t k pow) *)\n"
-            "Definition m_root_angle (t k pow : T) : T :=\n  %s." % v.coq), T.sha(src, fn)
+    # radius when normalize is true: the `body` of  r = <body> if normalize else <orelse>
+    ife = b[1].value
+    if not (isinstance(ife, ast.IfExp) and isinstance(ife.test, ast.Name) and ife.test.id == "normalize"):
+        T.fail(F_MATH, fn, "roots: radius is not `<e> if normalize else <e>`")
+    rad = comp.ex(ife.body, {})
+    if rad.ty != "S":
+        T.fail(F_MATH, fn, "roots: normalised radius is not a scalar")
+    envl = {"t": Val("t", "S"), g.target.id: Val("(oZ o (Z.of_nat k_))", "S"), "pow": Val("(oZ o (Z.of_nat pow))", "S")}
+    vl = comp.ex(lc.elt.args[1], envl)
+    return ("(* roots(c, pow): with (r, t) = cmath.polar(c), the k-th returned root is cmath.rect(r', m_root_angle t k pow) *)\n"
+            "Definition m_root_angle (t k pow : T) : T :=\n  %s.\n"
+            "(* r' when normalize=True *)\n"
+            "Definition m_root_radius_normalized : T :=\n  %s.\n"
+            "(* the whole comprehension [cmath.rect(r', <angle>) for k in range(pow)]: the list of the angles *)\n"
+            "Definition m_roots_angles (t : T) (pow : nat) : list T :=\n  map (fun k_ : nat => %s) (seq 0 pow)."
+            % (v.coq, rad.coq, vl.coq)), T.sha(src, fn)
 
 
 # ====================================================================== effects
 ARRAY_VIEWS = {"Vec", "np.asarray", "np.asanyarray", "np.ravel", "np.atleast_1d"}
-FRESH_CALLS = {"np.array", "np.full", "np.zeros", "np.ones", "np.copy", "np.maximum", "np.minimum", "np.min", "np.max",
-               "np.abs", "np.sum", "np.dot", "np.sqrt", "np.all", "np.any", "np.outer", "np.random.random", "abs",
-               "max", "min", "len", "range", "isinstance", "float", "int", "math.cos", "math.sin", "math.atan2",
-               "cmath.polar", "cmath.rect", "sqrt", "Exception", "AABB.IncompatibleDimensionError", "check_argument",
-               "Rotation.create_group", "super", "np.errstate"}
-MUTATING_METHODS = {"sort", "fill", "resize", "put", "itemset", "partition", "setfield", "setflags", "byteswap"}
-SETERR = {"np.seterr", "np.seterrcall", "np.seterrobj", "numpy.seterr"}
+# EXPLICIT whitelist of callables that neither write into an argument nor touch numpy's error register.
+# A call of anything else that is not a function of the table is a TranslationError (the analysis is fail-closed).
+PURE_CALLS = {"np.array", "np.full", "np.zeros", "np.ones", "np.copy", "np.maximum", "np.minimum", "np.min", "np.max",
+              "np.abs", "np.sum", "np.dot", "np.sqrt", "np.all", "np.any", "np.outer", "np.random.random", "abs",
+              "max", "min", "len", "range", "isinstance", "float", "int", "complex", "bool", "tuple", "list", "str",
+              "math.cos", "math.sin", "math.atan2", "math.sqrt", "cmath.polar", "cmath.rect", "cmath.phase", "sqrt",
+              "Exception", "AABB.IncompatibleDimensionError", "check_argument", "Rotation.create_group", "super",
+              "np.errstate", "np.geterr", "Vec", "cls", "np.asarray", "np.asanyarray", "np.ravel", "np.atleast_1d"}
+FRESH_CALLS = PURE_CALLS - ARRAY_VIEWS
+# methods of VALUES (arrays, Vec, scipy Rotation, str) that are pure
+PURE_METHODS = {"view", "reshape", "ravel", "squeeze", "transpose", "copy", "flatten", "all", "any", "tolist", "astype",
+                "magnitude", "inv", "lower", "upper", "format", "item", "conjugate", "__init__"}
+VIEW_METHODS = {"view", "reshape", "ravel", "squeeze", "transpose"}
+# methods that write into their receiver (arrays and Python containers)
+MUTATING_METHODS = {"sort", "fill", "resize", "put", "itemset", "partition", "setfield", "setflags", "byteswap",
+                    "__iadd__", "__isub__", "__imul__", "__itruediv__", "__ifloordiv__", "__imod__", "__ipow__",
+                    "__iand__", "__ior__", "__ixor__", "__imatmul__", "__setitem__", "__delitem__", "__setattr__",
+                    "append", "extend", "insert", "pop", "remove", "clear", "update", "add", "discard", "reverse",
+                    "setdefault", "popitem", "shuffle"}
+SETERR = {"np.seterr", "np.seterrcall", "np.seterrobj", "numpy.seterr", "numpy.seterrcall", "numpy.seterrobj",
+          "seterr", "seterrcall", "seterrobj"}
+CLASS_BASES = {"np.ndarray", "numpy.ndarray", "Vec", "np.matrix", "list", "dict", "set"}
+# names that may be read without being a parameter or a local: modules, classes and constants of the five files
+GLOBAL_NAMES = {"np", "numpy", "math", "cmath", "geom", "Vec", "AABB", "Rotation", "pi", "sqrt", "float", "int", "complex",
+                "str", "bool", "list", "tuple", "dict", "set", "Exception", "True", "False", "None", "check_argument",
+                "Union", "hq"}
+
+
+GLOBAL_ROOT = 99      # pseudo-argument index standing for "module-level / global object" (never writable)
 
 
 class Effects:
@@ -1024,6 +1060,7 @@ class Effects:
     def __init__(self, rel, src, fn, qual, table_names, cls):
         self.rel, self.src, self.fn, self.qual = rel, src, fn, qual
         self.names = table_names        # python-level callee name -> table key
+        self.plain_names = {k for k in table_names if "." not in k}
         self.cls = cls
         a = fn.args
         self.params = [x.arg for x in a.posonlyargs + a.args]
@@ -1041,7 +1078,11 @@ class Effects:
     def root(self, e):
         """set of parameter indices the value of e may alias (empty = fresh / scalar)"""
         if isinstance(e, ast.Name):
-            return set(self.env.get(e.id, set()))
+            if e.id in self.env:
+                return set(self.env[e.id])
+            if e.id in GLOBAL_NAMES or e.id in self.plain_names:
+                return {GLOBAL_ROOT}        # a module / class / function object: shared state, never fresh
+            self.fail(e, "name %s is neither a parameter, a local, nor a known module/class/function" % e.id)
         if isinstance(e, (ast.Constant, ast.BinOp, ast.UnaryOp, ast.Compare, ast.BoolOp, ast.JoinedStr, ast.Lambda)):
             return set()
         if isinstance(e, ast.Attribute):
@@ -1071,15 +1112,20 @@ class Effects:
                 allr |= self.root(x)
             if d in ARRAY_VIEWS and len(e.args) == 1:
                 return allr
+            if d == "np.array":
+                # np.array(x) copies; np.array(x, copy=False) (or any non-literal copy=) may return x itself
+                cp = [k.value for k in e.keywords if k.arg == "copy"]
+                if cp and not (isinstance(cp[0], ast.Constant) and cp[0].value is True):
+                    return allr
+                return set()
             if d in FRESH_CALLS or d == "Vec":
                 return set()
-            if isinstance(e.func, ast.Attribute) and e.func.attr in ("view", "reshape", "ravel", "squeeze", "transpose"):
+            if isinstance(e.func, ast.Attribute) and d not in self.names and e.func.attr in VIEW_METHODS:
                 return self.root(e.func.value)
-            if isinstance(e.func, ast.Attribute) and e.func.attr in ("copy", "flatten", "all", "any", "norm", "dot",
-                                                                      "outer", "magnitude", "inv", "lower"):
+            if isinstance(e.func, ast.Attribute) and d not in self.names and e.func.attr in PURE_METHODS:
                 return set()
             # a function of the table (or an unknown one): its result may alias any of its arguments
-            if isinstance(e.func, ast.Attribute):
+            if isinstance(e.func, ast.Attribute) and d not in self.names:
                 allr |= self.root(e.func.value)
             return allr
         self.fail(e, "expression shape not covered by the alias analysis")
@@ -1096,45 +1142,82 @@ class Effects:
             self.fail(target, "unsupported binding target")
 
     def calls_in(self, e, out):
-        """events of the calls inside expression e, innermost first"""
+        """events of the calls inside expression e, innermost first.  FAIL-CLOSED: every Call must be (a) an error-register
+        setter, (b) a function of the table, (c) in the explicit whitelist of pure callables / pure methods, or
+        (d) a recognised in-place method (-> EMut rooted at its receiver); anything else is a TranslationError."""
+        if isinstance(e, (ast.GeneratorExp, ast.ListComp, ast.SetComp)):
+            saved = dict(self.env)
+            for g in e.generators:
+                self.calls_in(g.iter, out)
+                self.bind(g.target, self.root(g.iter))
+                for c in g.ifs:
+                    self.calls_in(c, out)
+            self.calls_in(e.elt, out)
+            self.env = saved
+            return
+        if isinstance(e, (ast.DictComp, ast.Lambda, ast.NamedExpr, ast.Await, ast.Yield, ast.YieldFrom)):
+            self.fail(e, "expression kind outside the recognised subset")
         for ch in ast.iter_child_nodes(e):
-            if isinstance(ch, (ast.expr, ast.comprehension, ast.keyword)):
+            if isinstance(ch, (ast.expr, ast.keyword)):
                 self.calls_in(ch, out)
-        if isinstance(e, ast.Call):
-            d = T.dotted(e.func)
-            kws = {k.arg for k in e.keywords}
-            if "out" in kws or d in ("np.copyto", "np.put", "np.place", "np.putmask", "setattr", "exec", "eval"):
-                self.fail(e, "in-place numpy call form (%s) is outside the recognised subset" % d)
-            if d in SETERR:
-                out.append("ESetErr")
+        if not isinstance(e, ast.Call):
+            return
+        d = T.dotted(e.func)
+        kws = {k.arg for k in e.keywords}
+        if "out" in kws or d in ("np.copyto", "np.put", "np.place", "np.putmask", "setattr", "exec", "eval"):
+            self.fail(e, "in-place numpy call form (%s) is outside the recognised subset" % d)
+        if d in SETERR:
+            out.append("ESetErr")
+            return
+        # ---- (b) a function of the table, written by name
+        key = None
+        recv = None
+        if d in self.names:
+            key = self.names[d]
+        elif d in PURE_CALLS:
+            return
+        elif isinstance(e.func, ast.Attribute):
+            m = e.func.attr
+            base = T.dotted(e.func.value)
+            # class-qualified in-place method: np.ndarray.sort(b), list.append(l, x): writes into its FIRST argument
+            if base in CLASS_BASES and m in MUTATING_METHODS:
+                if not e.args:
+                    self.fail(e, "class-qualified mutator without a receiver")
+                out.append(("EMut", self.root(e.args[0])))
                 return
-            if isinstance(e.func, ast.Attribute) and e.func.attr in MUTATING_METHODS:
-                out.append(("EMut", self.root(e.func.value)))
-                return
-            key = None
-            recv = None
-            if d in self.names:
-                key = self.names[d]
-            elif isinstance(e.func, ast.Attribute):
-                # method call on a value: <expr>.norm(), self.contains_point(pt), X.normalize()
-                m = e.func.attr
-                base = T.dotted(e.func.value)
+            lib = (base or "").split(".")[0] in ("np", "numpy", "math", "cmath", "geom", "hq", "Rotation", "scipy")
+            is_super = isinstance(e.func.value, ast.Call) and T.dotted(e.func.value.func) == "super"
+            if not lib and not is_super:
+                # ---- method call on a value
+                if m in MUTATING_METHODS:
+                    out.append(("EMut", self.root(e.func.value)))
+                    return
                 cands = [k for k in set(self.names.values()) if k.split(".")[-1] == m and "." in k]
-                is_super = isinstance(e.func.value, ast.Call) and T.dotted(e.func.value.func) == "super"
-                lib = (base or "").split(".")[0] in ("np", "numpy", "math", "cmath", "geom", "hq", "Rotation", "scipy")
-                if not lib and not is_super and cands:
+                if cands:
                     if len(cands) > 1:
                         own = [k for k in cands if self.cls and k.startswith(self.cls + ".")]
                         cands = own or cands
                     key = sorted(cands)[0]
                     recv = self.root(e.func.value)
-            if key is not None:
-                argr = [self.root(x) for x in e.args]
-                if recv is not None:
-                    argr = [recv] + argr
-                elif key.endswith(".__init__"):
-                    argr = [set()] + argr          # the object under construction is fresh
-                out.append(("ECall", key, argr))
+                elif m in PURE_METHODS:
+                    return
+                else:
+                    self.fail(e, "method .%s() is neither a method of the table nor in the whitelist of pure methods" % m)
+            elif is_super and m in PURE_METHODS:
+                return
+        if key is not None:
+            argr = [self.root(x) for x in e.args]
+            if recv is not None:
+                argr = [recv] + argr
+            elif key.endswith(".__init__"):
+                argr = [set()] + argr          # the object under construction is fresh
+            out.append(("ECall", key, argr))
+            return
+        # ---- (c) explicit whitelist
+        if d in PURE_CALLS:
+            return
+        self.fail(e, "call of %s: not a function of the five files and not in the whitelist of pure callables"
+                  % (d or ast.dump(e.func)[:60]))
 
     def stmts(self, body):
         evs = []
